@@ -2,7 +2,7 @@
    Model: Pulse/PulseModel.v (util/PulseNode.{h,cpp}); oracles gt/pl = the virtual GetPulseTime()/Pulse(). *)
 From Coq Require Import List Arith NArith Lia.
 From Muscle Require Import Pulse.PulseModel Pulse.PulseInv Pulse.PulseOps Pulse.PulseSweep Pulse.PulseReach Pulse.PulseMin
-     Pulse.PulseExact Pulse.PulseAsk Pulse.PulseRefuted Pulse.PulseForest Pulse.PulseFuel.
+     Pulse.PulseExact Pulse.PulseAsk Pulse.PulseRefuted Pulse.PulseForest Pulse.PulseFuel Pulse.PulseDepth Pulse.PulseFuelAny.
 Import ListNotations.
 
 (* the translated constant the model's clamp rests on *)
@@ -58,6 +58,38 @@ Theorem C20_recalc_asks :
 Proof. exact recalc_asks. Qed.
 Print Assumptions C20_recalc_asks.
 
+(* an invalid node cannot be forgotten ("a timer that silently never fires"): in every Good state an attached node whose
+   time is not valid, and every one of its ancestors that has a parent, is on a needs-recalc list *)
+Theorem C20_invalid_on_recalc_path :
+  forall m x, Good nobody m -> valid (m x) = false ->
+    forall a, desc m a x -> parent (m a) <> None -> cur (m a) = LRecalc.
+Proof. exact invalid_on_recalc_path. Qed.
+Print Assumptions C20_invalid_on_recalc_path.
+
+(* cycle_exact: THE PROPERTY for one manager cycle (recalculation sweep, then pulse sweep -- what ReflectServer does when
+   it wakes up) from any Good state, with callbacks that perform no operations: all attached nodes asked, reported time =
+   minimum of the requested times, Pulse() on exactly the attached nodes with requested time <= now, once each, with
+   (now, requested time), each invalid and queued for being asked again afterwards *)
+Theorem C20_cycle_exact :
+  forall (gt : nat -> nat -> N -> N -> N * list cop) (pl : nat -> nat -> N -> N -> list cop),
+    (forall x k now prev, snd (gt x k now prev) = []) -> (forall x k now st, pl x k now st = []) ->
+    forall f s r now s',
+      (now < NEVER)%N -> Good nobody (nd s) -> is_root (nd s) r = true ->
+      step gt pl f s (TCycle r now) = Some s' ->
+      exists s1 mn,
+        top_get gt f s r now = Some s1 /\ top_pulse pl f s1 r now = Some s' /\
+        hd_error (evs s1) = Some (EMin r mn) /\
+        (forall y, desc (nd s1) r y -> valid (nd s1 y) = true /\ (mn <= sched (nd s1 y))%N) /\
+        (exists y, desc (nd s1) r y /\ sched (nd s1 y) = mn) /\
+        Good nobody (nd s') /\
+        exists d, evs s' = d ++ evs s1 /\ NoDup (map ev_node d) /\
+          (forall e, In e d -> exists y k, e = EPulse y k now (sched (nd s1 y)) /\ desc (nd s1) r y /\ (sched (nd s1 y) <= now)%N) /\
+          (forall y, desc (nd s1) r y -> (sched (nd s1 y) <= now)%N -> exists k, In (EPulse y k now (sched (nd s1 y))) d) /\
+          (forall y, desc (nd s1) r y -> (sched (nd s1 y) <= now)%N ->
+                     valid (nd s' y) = false /\ (parent (nd s' y) <> None -> cur (nd s' y) = LRecalc)).
+Proof. exact cycle_exact. Qed.
+Print Assumptions C20_cycle_exact.
+
 (* pulse_exact: on a freshly recalculated tree, with Pulse() callbacks that do not restructure it, a pulse sweep at
    time now calls Pulse() on exactly the attached nodes whose requested time is <= now, once each, with
    (now, requested time); each is invalid afterwards and on its parent's needs-recalc list *)
@@ -108,6 +140,26 @@ Theorem C20_step_total :
     forall f s o, Good nobody (nd s) -> fits f (nd s) -> exists s', step gt pl f s o = Some s'.
 Proof. exact step_total. Qed.
 Print Assumptions C20_step_total.
+
+(* ... and the general form: ANY Pulse() callbacks (restructuring the forest from inside the sweep), fuel >= 3N+4 where
+   N bounds the ids of the nodes in use *)
+Theorem C20_step_total_any :
+  forall (gt : nat -> nat -> N -> N -> N * list cop) (pl : nat -> nat -> N -> N -> list cop),
+    (forall x k now prev, snd (gt x k now prev) = []) ->
+    forall f s o N,
+      Good nobody (nd s) -> (forall y, alive (nd s y) = true -> y < N) -> 3 * N + 4 <= f ->
+      exists s', step gt pl f s o = Some s'.
+Proof. exact step_total_any. Qed.
+Print Assumptions C20_step_total_any.
+
+(* run_total: every history that creates only nodes with ids below N runs to completion with fuel >= 3N+4 (so the
+   theorems above, stated for runs that return a state, cover every such history) *)
+Theorem C20_run_total :
+  forall (gt : nat -> nat -> N -> N -> N * list cop) (pl : nat -> nat -> N -> N -> list cop),
+    (forall x k now prev, snd (gt x k now prev) = []) ->
+    forall f N os, 3 * N + 4 <= f -> Forall (creates_below N) os -> exists s', run gt pl f init_state os = Some s'.
+Proof. exact run_total_init. Qed.
+Print Assumptions C20_run_total.
 
 Theorem C20_cop_total :
   forall G rk B N f m o,
